@@ -124,7 +124,17 @@ func New(maxConcurrent int, chQqueueSize int, v ...interface{}) *TaskPool {
 					tp.caller(f)
 				}
 			case <-tp.chClose:
-				return
+				// tasks accepted before Stop are still to be run.
+				for {
+					select {
+					case f := <-tp.chQqueue:
+						if f != nil {
+							tp.caller(f)
+						}
+					default:
+						return
+					}
+				}
 			}
 		}
 	}()
